@@ -69,6 +69,7 @@ type BatchLine struct {
 	Bad   string   `json:"bad,omitempty"`   // expected reported-error class ("" = valid line)
 	Ref   int      `json:"ref,omitempty"`   // C18: index of the line this one must equal (+1), 0 = none
 	Drop  []string `json:"drop,omitempty"`  // keys removed from the generated argument list (a line without project= or plotNr=)
+	OutTag string  `json:"outtag,omitempty"` // explicit polygon id (two lines with the same tag are the same batch line literally: same result files)
 }
 
 type SchedSpec struct {
